@@ -635,6 +635,22 @@ Definition zone_sizes_ok (c : ctx) (vals : list Z) (zt : Z) : bool :=
 Definition ptset_count (sl : list (list rnode)) (parent : kind) : nat :=
   length (slot_of sl KPointList parent) + length (slot_of sl KPointRange parent).
 
+(* cgi_read_ptset: size_of_patch of the point set found under the node (a list: its length; a range: the product of the
+   extents, as the reader computes them -- without taking absolute values) *)
+Definition patch_size (c : ctx) (sl : list (list rnode)) (parent : kind) : Z :=
+  match slot_of sl KPointList parent, slot_of sl KPointRange parent with
+  | R _ _ (VInts dims _) _ :: _, _ => nth 1 dims 0
+  | [], R _ _ (VInts _ vals) _ :: _ =>
+      let n := Z.to_nat (cx_idim c) in
+      fold_left Z.mul (map (fun j => nth (j + n) vals 0 - nth j vals 0 + 1) (seq 0 n)) 1
+  | _, _ => 0
+  end.
+
+(* does reader function [fn] call cgi_datasize before it looks for the point set of the node (then a location without a
+   zone-wide data size fails the node even when it has a point set)?  Read off the source by the translator. *)
+Definition datasize_first (fn : bytes) : bool := existsb (bytes_eqb fn) gen_datasize_before_ptset.
+Definition is_some {A} (o : option A) : bool := match o with Some _ => true | None => false end.
+
 Definition arrays_loadable (sl : list (list rnode)) (parent : kind) : bool :=
   forallb (fun a => dt_in dts_loadable (arr_dt a)) (slot_of sl KArray parent).
 
@@ -656,7 +672,7 @@ Definition post_ok (k : kind) (c : ctx) (v : pval) (sl : list (list rnode)) : bo
       forallb (fun a => dt_in dts_field (arr_dt a) &&
                         match ptset_count sl KPSol with
                         | O => zs_eqb (arr_dims a) [nth 0 (cx_zsize c) 0]
-                        | _ => (length (arr_dims a) =? 1)%nat
+                        | _ => zs_eqb (arr_dims a) [patch_size c sl KPSol]
                         end) (slot_of sl KArray KPSol)
   | KSubReg => (ptset_count sl KSubReg <=? 1)%nat
   (* cgi_read_bprop: exactly SurfaceArea <R4, 1> and RegionName <C1, 32>; cgi_read_cprop: exactly the three R4 vectors *)
@@ -681,21 +697,36 @@ Definition post_ok (k : kind) (c : ctx) (v : pval) (sl : list (list rnode)) : bo
       | Some ds => forallb (fun a => zs_eqb (arr_dims a) ds && dt_in dts_real (arr_dt a)) (slot_of sl KArray KGrid)
       | None => false
       end
+  (* cgi_read_sol / cgi_read_discrete: the data size of the location is computed first -- also when a point set follows,
+     so that a location cgi_datasize does not know fails the whole file -- then the arrays have that shape or, below a point
+     set, one dimension of the patch size *)
   | KSol =>
       (ptset_count sl KSol <=? 1)%nat &&
+      let ds := datasize c (loc_of sl KSol) (rind_of c sl KSol) in
       match ptset_count sl KSol with
-      | O => match datasize c (loc_of sl KSol) (rind_of c sl KSol) with
-             | Some ds => forallb (fun a => zs_eqb (arr_dims a) ds && dt_in dts_field (arr_dt a)) (slot_of sl KArray KSol)
+      | O => match ds with
+             | Some ds => forallb (fun a => dt_in dts_field (arr_dt a) && zs_eqb (arr_dims a) ds) (slot_of sl KArray KSol)
              | None => false
              end
-      | _ => forallb (fun a => (length (arr_dims a) =? 1)%nat && dt_in dts_field (arr_dt a)) (slot_of sl KArray KSol)
+      | _ => (negb (datasize_first (s "cgi_read_sol")) || is_some ds) &&
+             forallb (fun a => dt_in dts_field (arr_dt a) && zs_eqb (arr_dims a) [patch_size c sl KSol]) (slot_of sl KArray KSol)
       end
   | KElements =>
       match v with VInts _ [et; _] => (0 <=? et) && (et <? NofValidElementTypes) | _ => false end
   | KBC => (ptset_count sl KBC =? 1)%nat
   | KBCDataSet => (ptset_count sl KBCDataSet <=? 1)%nat
   | KUserData => (ptset_count sl KUserData <=? 1)%nat
-  | KDiscrete => (ptset_count sl KDiscrete <=? 1)%nat
+  | KDiscrete =>
+      (ptset_count sl KDiscrete <=? 1)%nat &&
+      let ds := datasize c (loc_of sl KDiscrete) (rind_of c sl KDiscrete) in
+      match ptset_count sl KDiscrete with
+      | O => match ds with
+             | Some ds => forallb (fun a => zs_eqb (arr_dims a) ds) (slot_of sl KArray KDiscrete)
+             | None => false
+             end
+      | _ => (negb (datasize_first (s "cgi_read_discrete")) || is_some ds) &&
+             forallb (fun a => zs_eqb (arr_dims a) [patch_size c sl KDiscrete]) (slot_of sl KArray KDiscrete)
+      end
   | KConn =>
       (ptset_count sl KConn =? 1)%nat &&
       (length (slot_of sl KPointListDonor KConn) + length (slot_of sl KCellListDonor KConn) <=? 1)%nat &&
